@@ -11,6 +11,7 @@ Formula representation (tuples, hashable):
 from __future__ import annotations
 
 import ast
+import re
 import itertools
 from typing import Dict, Iterable, List, Optional, Sequence, Set, Tuple
 
@@ -195,6 +196,8 @@ def _expr_text(e: ast.AST) -> str:
         # membership / emptiness of list(x), set(x) equals that of x
         pass
     t = norm(e)
+    # `x.strip().startswith('#')` is `x.lstrip().startswith('#')` (the prefix does not begin with white space): one spelling
+    t = re.sub(r"\.strip\(\)\.startswith\((?=['\"][^\s'\"])", ".lstrip().startswith(", t)
     return _EXPR_HOOK(t) if _EXPR_HOOK else t
 
 
